@@ -877,6 +877,19 @@ func (ex *Executor) jump(st *State, fr *frame, b *ssa.BasicBlock) bool {
 			uhBefore[k] = v
 		}
 		ex.havocLoop(st, fr, b)
+		// the index of a range loop is only ever incremented from -1 (go/ssa
+		// generates it): it stays >= -1 whatever the body does
+		for _, ins := range b.Instrs {
+			phi, ok := ins.(*ssa.Phi)
+			if !ok {
+				break
+			}
+			if phi.Comment == "rangeindex" {
+				if t, ok := fr.regs[phi].(*Term); ok && t.S == SInt {
+					st.Assume(Ge(t, IntLit(-1)))
+				}
+			}
+		}
 		snap := &cutSnap{trace: len(st.Trace), cells: map[int]Value{}, havocked: map[int]bool{}, overlay: map[string]Value{}, uheap: map[string]*Term{}, uhavocked: map[string]bool{}}
 		for k, v := range st.Cells {
 			snap.cells[k] = v
